@@ -151,13 +151,15 @@ Proof.
   - destruct (forallb (fun t => py_eqb t t0) rest).
     + injection S as <-. cbn [forallb] in B. apply andb_prop in B. tauto.
     + destruct (forallb is_tlist (t0 :: rest)) eqn:AL.
-      * destruct (shrink k fuel (map list_arg (t0 :: rest))) as [T|] eqn:ST;
+      * destruct (shrink k fuel (filter (fun a => negb (is_tany a)) (map list_arg (t0 :: rest)))) as [T|] eqn:ST;
           [|cbn [option_map] in S; discriminate S]. cbn [option_map] in S.
         injection S as <-. cbn [td_boundedb]. apply (fun X Y => IH _ _ X Y ST).
         -- rewrite forallb_forall in AL. rewrite Forall_forall in *. intros y Hy.
+           apply filter_In in Hy. destruct Hy as [Hy _].
            apply in_map_iff in Hy. destruct Hy as [z [<- Hz]].
            pose proof (W z Hz) as Wz. pose proof (AL z Hz) as Lz. destruct z; try discriminate Lz. exact Wz.
-        -- rewrite forallb_forall in *. intros y Hy. apply in_map_iff in Hy. destruct Hy as [z [<- Hz]].
+        -- rewrite forallb_forall in *. intros y Hy. apply filter_In in Hy. destruct Hy as [Hy _].
+           apply in_map_iff in Hy. destruct Hy as [z [<- Hz]].
            pose proof (B z Hz) as Bz. pose proof (AL z Hz) as Lz. destruct z; try discriminate Lz. exact Bz.
       * injection S as <-. change (td2dict t0 :: map td2dict rest) with (map td2dict (t0 :: rest)).
         apply union_mk_bd. rewrite forallb_forall in *. intros y Hy.
@@ -186,9 +188,9 @@ Lemma mapM_gt_bd {A} (proj : A -> value) (l : list A) ts :
 Proof.
   intros HF HW HM.
   assert (Wts : Forall wf_ty ts).
-  { assert (HG : Forall (fun a => gt_ok true subN k (proj a)) l)
+  { assert (HG : Forall (fun a => gt_ok subN k (proj a)) l)
       by (rewrite Forall_forall; intros x _; apply get_type_ok; apply subN_refl).
-    destruct (mapM_gt_ok true subN k proj l ts HG HW HM) as [X _]. exact X. }
+    destruct (mapM_gt_ok subN k proj l ts HG HW HM) as [X _]. exact X. }
   split; [|exact Wts]. apply mapM_Forall2 in HM. clear Wts.
   induction HM as [|a t l ts Ht _ IH]; [reflexivity|].
   inversion HF as [|? ? Ha HF']; subst. cbn [forallb] in HW |- *. apply andb_prop in HW. destruct HW as [W1 W2].
